@@ -7,6 +7,7 @@ import DebInspector.Props.C01
 import DebInspector.Props.C02
 import DebInspector.Props.C03
 import DebInspector.Props.C04
+import DebInspector.Props.C05
 import DebInspector.Props.C15
 import DebInspector.Props.C17
 import DebInspector.Props.C20
@@ -21,6 +22,7 @@ def dispatch (op : String) (v : Val) : Option Val :=
   | "C02" => Props.C02.check.run v
   | "C03" => Props.C03.check.run v
   | "C04" => Props.C04.check.run v
+  | "C05" => Props.C05.check.run v
   | "C15" => Props.C15.check.run v
   | "C15m" => Props.C15.checkM.run v
   | "C20" => Props.C20.check.run v
